@@ -216,7 +216,7 @@ pub fn from_processor_case(c: &serde_json::Value) -> DumpSpec {
         for (k, t) in c["threads"].as_array().unwrap().iter().enumerate() {
             let id = t["id"].as_u64().unwrap() as u32;
             spec.threads.push(ThreadSpec { id, ctx_ok: t["ctxOk"].as_bool().unwrap(), name: if t["named"].as_bool().unwrap() { Some(format!("T{}", id)) } else { None },
-                                           ip: thread_ip(t["spot"].as_str().unwrap(), k), sp: 0x10000 + 0x100 * k as u64, stack_base: 0x10000 + 0x100 * k as u64, stack: { let mut v = RA_THREAD.to_le_bytes().to_vec(); v.extend_from_slice(&[0u8; 8]); v } });
+                                           ip: thread_ip(t["spot"].as_str().unwrap(), k), sp: if t["stk"] == "other" { OTHER_REGION } else { 0x10000 + 0x100 * k as u64 }, stack_base: 0x10000 + 0x100 * k as u64, stack: { let mut v = RA_THREAD.to_le_bytes().to_vec(); v.extend_from_slice(&[0u8; 8]); v } });
         }
         let e = &c["exc"];
         if e["k"] == "some" {
